@@ -121,3 +121,35 @@ func BzMultiBlock(rng *rand.Rand, nblocks int) BzCase {
 	s, _ := synthStream(rng, o)
 	return BzCase{"synth-multiblock", s}
 }
+
+// BzFullBlock: a synthesized stream of the given level whose single block is COMPLETELY full
+// (level*100000 bytes before RLE1 expansion) and whose BWT output has no two equal neighbours, so
+// that the MTF/RLE2 stage saves nothing: level*100000 symbols plus the end-of-block symbol, the
+// largest number of 50-symbol groups (and selectors) a block of that level can need (18001 at
+// level 9). short > 0 leaves the block that many bytes below the limit.
+func BzFullBlock(rng *rand.Rand, level, short int) BzCase {
+	n := level*100000 - short
+	k := 3 + rng.Intn(5)
+	tt := make([]byte, n)
+	prev := -1
+	for i := range tt {
+		c := rng.Intn(k)
+		if c == prev {
+			c = (c + 1) % k
+		}
+		tt[i] = byte('a' + c)
+		prev = c
+	}
+	o := synthOpts{level: level, nblocks: 1, nstreams: 1, plain: true, presetTT: tt, presetPtr: rng.Intn(n)}
+	s, _ := synthStream(rng, o)
+	return BzCase{"synth-full-block", s}
+}
+
+// BzRelatedBlocks: a synthesized stream of 2..4 blocks over one alphabet whose code-length tables
+// are derived, tree by tree, from those of the block before (see synthOpts.related); tables may be
+// complete, under- or over-subscribed. libbzip2 decides what is accepted.
+func BzRelatedBlocks(rng *rand.Rand) BzCase {
+	o := synthOpts{level: 1 + rng.Intn(9), nblocks: 2 + rng.Intn(3), nstreams: 1, related: &relState{k: 2 + rng.Intn(5)}}
+	s, _ := synthStream(rng, o)
+	return BzCase{"synth-related-blocks", s}
+}
